@@ -10,6 +10,7 @@ structure DState where
   lang : Lang := builtinDecls
   aliases : List AliasDecl := []
   opNames : List String := []
+  ops : List OperatorDecl := []
   deriving Inhabited
 
 def DState.plang (st : DState) : PLang := { types := st.lang, aliases := st.aliases }
@@ -190,7 +191,85 @@ def stepParse (st : DState) (e : Sexp) : Option (DState × String) :=
       | .error e => "E:" ++ showPErr e)
   | _ => none
 
+def showPErrT : PErr → String
+  | .application e => "ApplicationError:" ++ showErr e
+  | e => showPErr e
+
+/-- expression trees for programmatic construction: `(op name)`, `(in k)`, `(src)`, `(call head arg …)` -/
+inductive CTree where
+  | op (name : String) | input (k : Nat) | src | call (head : CTree) (args : List CTree)
+  deriving Inhabited
+
+partial def ctree? : Sexp → Option CTree
+  | .list [.atom "op", .atom n] => some (.op n)
+  | .list [.atom "in", k] => (Sexp.nat? k).map .input
+  | .list [.atom "src"] => some .src
+  | .list (.atom "call" :: h :: args) => do pure (.call (← ctree? h) (← args.mapM ctree?))
+  | _ => none
+
+/-- Python evaluation order of `head(arg, …)`: the callee expression, the arguments left to right, then
+(an `Operator` callee is instantiated by `__call__` only now) one application per argument -/
+partial def buildCTree (L : Lang) (ops : List OperatorDecl) (inputs : List TExpr) (s : XState) : CTree → Except PErr (XState × TExpr)
+  | .op n => mkOpT L ops s n
+  | .input k => match lookupInput inputs k with
+    | some e => .ok (s, e)
+    | none => .error (.missingInput k)
+  | .src => .ok (mkSourceT s)
+  | .call h args => do
+    let mut s := s
+    -- the callee expression is evaluated first; an `Operator` callee is only instantiated by `__call__`, after the arguments
+    let mut early : Option TExpr := none
+    match h with
+    | .op _ => pure ()
+    | _ =>
+      let (s', f) ← buildCTree L ops inputs s h
+      s := s'
+      early := some f
+    let mut es : List TExpr := []
+    for a in args do
+      let (s', e) ← buildCTree L ops inputs s a
+      s := s'
+      es := es ++ [e]
+    match early with
+    | some f => callT L s f es
+    | none =>
+      let (s', f) ← buildCTree L ops inputs s h
+      callT L s' f es
+
+def finishTyped (L : Lang) (doFix : Bool) (r : Except PErr (XState × TExpr)) : String :=
+  match r with
+  | .error e => "E:" ++ showPErrT e
+  | .ok (s, e) =>
+    if doFix then
+      match fixExpr L s.store e with
+      | .error err => "E:" ++ showErr err
+      | .ok (σ, e') => "ok " ++ renderExpr σ e'
+    else "ok " ++ renderExpr s.store e
+
+def stepExpr (st : DState) (e : Sexp) : Option (DState × String) :=
+  match e with
+  | .list (.atom "operators" :: ds) => do
+    let ds ← ds.mapM Sexp.opdecl?
+    pure ({ st with ops := ds }, "ok")
+  | .list [.atom "texpr", n, fx, s] => do
+    let n ← Sexp.nat? n
+    let fx ← boolOf fx
+    let s ← Sexp.str? s
+    let toks := tokenize Generated.exprSpecials Generated.blanks s
+    let (s0, inputs) := mkInputs n {}
+    pure (st, finishTyped st.lang fx (parseExprToks st.plang (typedBuilder st.lang st.ops true) inputs s0 toks))
+  | .list [.atom "tcall", n, fx, t] => do
+    let n ← Sexp.nat? n
+    let fx ← boolOf fx
+    let t ← ctree? t
+    let (s0, inputs) := mkInputs n {}
+    pure (st, finishTyped st.lang fx (buildCTree st.lang st.ops inputs s0 t))
+  | _ => none
+
 def step (st : DState) (e : Sexp) : DState × String :=
+  match stepExpr st e with
+  | some r => r
+  | none =>
   match stepParse st e with
   | some r => r
   | none =>
